@@ -68,7 +68,19 @@ func cmdRun(args []string) {
 		wg.Add(1)
 		go func(ci int, c chunk) {
 			defer wg.Done()
-			results[ci] = superviseChunk(fam, in, c.lo, c.hi, vecs)
+			// each chunk gets its own vector file: a worker restarted after a crash parses only that
+			cf := in + ".chunk" + strconv.Itoa(ci)
+			fh := mustCreate(cf)
+			bw := bufio.NewWriterSize(fh, 1<<20)
+			for _, v := range vecs[c.lo:c.hi] {
+				b, _ := json.Marshal(v)
+				bw.Write(b)
+				bw.WriteByte('\n')
+			}
+			bw.Flush()
+			fh.Close()
+			results[ci] = superviseChunk(fam, cf, 0, c.hi-c.lo, vecs[c.lo:c.hi])
+			os.Remove(cf)
 		}(ci, c)
 	}
 	wg.Wait()
